@@ -260,8 +260,9 @@ PROPS["C18"] = {
 
 PROPS["C06"] = {
     "skeleton_fns": SUP_STATE + ["supervisor_PIDZero_Shutdown", "supervisor_PIDZero_startRunnable", "supervisor_PIDZero_reloadAllRunnables"],
-    "lean_modules": ["GoSup.Props.C06"],
-    "theorems": ["GoSup.Props.C06.c06_converges_partial", "GoSup.Props.C06.c06_snapshot", "GoSup.Props.C06.c06_snapshot_at_rest",
+    "lean_modules": ["GoSup.Props.C06", "GoSup.Props.C06A", "GoSup.Props.C08S"],
+    "theorems": ["GoSup.Props.C06A.c06_join_converges", "GoSup.Props.C06A.split_join_loses_update",
+                 "GoSup.Props.C08S.c08_sub_last_is_current", "GoSup.Props.C06.c06_converges_partial", "GoSup.Props.C06.c06_snapshot", "GoSup.Props.C06.c06_snapshot_at_rest",
                  "GoSup.Props.C06.c06_snapshot_partial", "GoSup.Props.C06.c06_dedup",
                  "GoSup.Props.C06.c06_after_exit", "GoSup.Props.C06.c06_store_is_last_word", "GoSup.Props.C06.c06_reload_store_broadcasts",
                  "GoSup.Props.C06.c06_close_once",
